@@ -23,6 +23,7 @@ def main():
     src = '/tmp/seed/' + prop
     extra = []
     tier = 'quick'
+    tag = ''
     args = sys.argv[2:]
     while args:
         a = args.pop(0)
@@ -32,12 +33,14 @@ def main():
             src = args.pop(0)
         elif a == '--tier':
             tier = args.pop(0)
+        elif a == '--tag':
+            tag = args.pop(0)
     os.makedirs('/tmp/mut', exist_ok=True)
     for k in sorted(os.listdir(src)):
         d = os.path.join(src, k)
         if not os.path.isfile(os.path.join(d, 'patch.diff')):
             continue
-        name = '%s-%s' % (prop, k)
+        name = '%s-%s%s' % (prop, tag, k)
         meta = {}
         try:
             meta = json.load(open(os.path.join(d, 'meta.json')))
